@@ -118,6 +118,39 @@ def h_otherkey(k, integ_id):
         shims.HMAC_UF.injective = False
 
 
+def h_emit(who, kind):
+    """IkeSa.generate_request / generate_response of a keyed IKE_SA with an ARBITRARY exchange type and arbitrary payload bytes: unless the
+    exchange is IKE_SA_INIT, the datagram carries exactly one clear payload - the Encrypted payload, extending to the end of the datagram -
+    and the given payloads are recovered from inside it"""
+    from symx import core
+    from . import world
+    eng = core.engine()
+    m = MODS['message']
+    p = world.Pair()
+    p.establish()
+    me = p.a if who == 'A' else p.b
+    exch = eng.sym_int('exchange', 0, 255)
+    vid = eng.sym_bytes('vendor', 5)
+    payloads = [m.PayloadVENDOR(vid), m.PayloadNOTIFY(m.Proposal.Protocol.NONE, 16388, b'', eng.sym_bytes('ndata', 2))]
+    msg = (me.generate_request if kind == 'request' else me.generate_response)(exch, payloads)
+    data = msg.to_bytes()
+    d = core.SymBytes.lift(data)
+    P = eng.prove
+    if bool(exch == 34):
+        return ['emit', 'ike_sa_init']
+    n = len(d)
+    P(d[16] == 46, 'a message other than IKE_SA_INIT does not start with the Encrypted payload')
+    sk_len = (d[30] << 8) | d[31]
+    P(sk_len == n - 28, 'something follows (or precedes) the Encrypted payload in the clear')
+    P(d[28] == 43, 'the Next Payload field of the Encrypted payload does not name the first inner payload')
+    back = m.Message.parse(data, crypto=me.my_crypto)
+    if len(back.payloads) != 0 or len(back.encrypted_payloads) != 2:
+        return {'class': ['emit'], 'violation': f'{len(back.payloads)} clear / {len(back.encrypted_payloads)} protected payloads instead of 0 / 2'}
+    P(core.sym_and(back.encrypted_payloads[0].vendor_id == vid, back.encrypted_payloads[1].notification_data == payloads[1].notification_data),
+      'the protected payloads are not the ones given')
+    return ['emit', 'protected']
+
+
 def h_tamper(k, integ_id, pos_kind):
     """a datagram whose checksum field is arbitrary: whenever the real parser accepts it, the whole truncated MAC of
     header..ciphertext equals the whole checksum field (so any change of any covered byte needs a MAC collision)"""
@@ -172,6 +205,10 @@ def build_instances(tier):
         for integ_id in (2, 12, 14):
             inst.append(Instance(f'accept-implies-MAC blocks={k} integ={integ_id}', h_tamper, (k, integ_id, 0),
                                  must_reach=[('accepted', lambda o: o[0] == 'accepted'), ('rejected', lambda o: o[0] == 'rejected')]))
+    for who in ('A', 'B'):
+        for kind in ('request', 'response'):
+            inst.append(Instance(f'emitted {kind} of {who} with any exchange type', h_emit, (who, kind),
+                                 must_reach=[('protected', lambda o: o == ['emit', 'protected']), ('init', lambda o: o == ['emit', 'ike_sa_init'])]))
     for k in {'quick': (1, 12), 'thorough': (1, 5, 12, 28)}[tier]:
         for integ_id in (2, 12, 14):
             inst.append(Instance(f'other integrity key vendor_len={k} integ={integ_id}', h_otherkey, (k, integ_id), native=common.native_of(h_otherkey),
@@ -187,8 +224,13 @@ def _load_native():
 def replay_file(path):
     """native replay with the real AES/HMAC: differential test of the same facts on the concrete witness"""
     global MODS
-    if 'other integrity key' in json.load(open(path)).get('instance', ''):
-        return common.generic_replay_file(path, lambda: build_instances('thorough') + build_instances('quick'), _load_native)
+    iname = json.load(open(path)).get('instance', '')
+    if 'other integrity key' in iname or iname.startswith('emitted'):
+        def _ld():
+            global MODS
+            from . import world
+            MODS = world.load(shim=False)
+        return common.generic_replay_file(path, lambda: build_instances('thorough') + build_instances('quick'), _ld)
     MODS = common.load_repo(shim=False)
     import hmac, hashlib
     m, c = MODS['message'], MODS['crypto']
@@ -245,7 +287,8 @@ def replay_file(path):
 
 def main(tier, seed):
     global MODS
-    MODS = common.load_repo()
+    from . import world
+    MODS = world.load(shim=True)
     m, c = MODS['message'], MODS['crypto']
     chk = Check('C07', tier, seed,
                 functions=common.src_hash(m.PayloadSK.generate, m.PayloadSK.decrypt, m.Message.to_bytes, m.Message.parse,
